@@ -275,6 +275,7 @@ class Check(PropertyCheck):
         byid = lambda f: ident.get(id(f), "?")
         v = mview.View()
         steps, lines = [], []
+        stored = []          # the harness' own record of what it put into / took out of the store (never read from the view)
         with addon_context(v) as tctx:
             rec = Recorder(v, ident)
             tctx.options.update(console_focus_follow=False)
@@ -291,15 +292,19 @@ class Check(PropertyCheck):
                         for i, a in op[1]:
                             f = flows[i]
                             # a flow changes only together with the notification that reports the change
-                            if k == "update" or f.id not in v._store: mutate(f, case["pool"][i], a)
+                            if k == "update" or i not in stored: mutate(f, case["pool"][i], a)
                             fs.append(f)
+                        if k == "add": stored += [i for i in dict.fromkeys(x[0] for x in op[1]) if i not in stored]
                         tag = "add" if k == "add" else "upd"
                         lines.append([f"{tag} {i} {self._model_attr(v, flows[i])}" for i, _ in op[1]])
                         (v.add if k == "add" else v.update)(fs)
                     elif k == "remove":
-                        lines.append([f"rm {i}" for i in op[1]]); v.remove([flows[i] for i in op[1]])
-                    elif k == "clear": lines.append(["clear"]); v.clear()
-                    elif k == "clear_unmarked": lines.append(["clearunmarked"]); v.clear_not_marked()
+                        lines.append([f"rm {i}" for i in op[1]])
+                        stored = [i for i in stored if i not in op[1]]
+                        v.remove([flows[i] for i in op[1]])
+                    elif k == "clear": lines.append(["clear"]); stored = []; v.clear()
+                    elif k == "clear_unmarked":
+                        lines.append(["clearunmarked"]); stored = [i for i in stored if flows[i].marked]; v.clear_not_marked()
                     elif k == "filter": lines.append([f"filter {op[1]}"]); v.set_filter(_PARSED[op[1]])
                     elif k == "order": lines.append([f"order {SLOT.get(op[1], 9)}"]); v.set_order(op[1])
                     elif k == "reversed": lines.append([f"reversed {op[1]}"]); v.set_reversed(bool(op[1]))
@@ -318,7 +323,6 @@ class Check(PropertyCheck):
                     raise
                 except Exception as e:   # nothing else may escape an operation
                     err = "unexpected:" + type(e).__name__
-                cur = v.orders.get(v.get_order(), v.default_order)
                 steps.append({
                     "op": k, "err": err,
                     "touched": [x[0] for x in op[1]] if k in ("add", "update", "mutate") else ([op[1]] if k == "setval" else []),
@@ -327,60 +331,112 @@ class Check(PropertyCheck):
                     "store": [byid(f) for f in v._store.values()],
                     "settings": sorted(byid(v._store[i]) if i in v._store else "gone:" + i[:6] for i in v.settings._values),
                     "sigs": rec.take(),
-                    # evaluated on the live flows by the real filter / key generator, for the oracle
-                    "want": [byid(f) for f in v._store.values()
-                             if v.filter(f) and (not v.show_marked or f.marked)],
-                    "keys": [repr(cur.generate(f)) for f in v._view],
-                    "kv": [cur.generate(f) for f in v._view],
-                    "sorted": all(cur.generate(a) <= cur.generate(b) for a, b in zip(list(v._view), list(v._view)[1:])),
                     "rev": v.order_reversed,
                 })
         self._stash = (json.dumps(case, sort_keys=True), lines)
         return {"steps": steps}
 
+    # ---------------------------------------------------------------- what the case's INPUTS say must hold
+    def reference(self, case):
+        """Per operation, derived from the case alone (own flows, the key generators and flowfilter as references, never
+        the View): the store, and for every stored flow its live visibility / key and the visibility / key the view last
+        had occasion to evaluate (`seen`).  The view evaluates a flow at its add / update / settings write, every stored
+        flow at a re-filter (set_filter, toggle_marked, clear_not_marked), and the keys of the listed flows at set_order."""
+        key = json.dumps(case, sort_keys=True)
+        if getattr(self, "_ref", (None, None))[0] == key: return self._ref[1]
+        gens = mview.View().orders
+        flows = [make_flow(k) for k in case["pool"]]
+        store, seen_vis, seen_key = [], {}, {}
+        flt, marked_only, order, rev = 0, False, "time", False
+        vis = lambda i: bool((_PARSED[flt] is None or _PARSED[flt](flows[i])) and (not marked_only or flows[i].marked))
+        keyof = lambda i: gens[order].generate(flows[i])
+        def evaluate(i):
+            seen_vis[i] = vis(i)
+            if seen_vis[i]: seen_key[i] = keyof(i)
+        out = []
+        for op in case["ops"]:
+            k = op[0]
+            if k == "mutate":
+                for i, a in op[1]: mutate(flows[i], case["pool"][i], a)
+            elif k == "add":
+                new = [i for i in dict.fromkeys(x[0] for x in op[1]) if i not in store]
+                for i, a in op[1]:
+                    if i in new: mutate(flows[i], case["pool"][i], a)
+                for i in new: store.append(i); evaluate(i)
+            elif k == "update":
+                for i, a in op[1]: mutate(flows[i], case["pool"][i], a)
+                for i, _ in op[1]:
+                    if i in store: evaluate(i)
+            elif k == "setval":
+                if op[1] in store: evaluate(op[1])
+            elif k == "remove":
+                for i in op[1]:
+                    if i in store:
+                        if flows[i].killable: flows[i].kill()
+                        store.remove(i); seen_vis.pop(i, None); seen_key.pop(i, None)
+            elif k == "clear": store, seen_vis, seen_key = [], {}, {}
+            elif k in ("clear_unmarked", "filter", "toggle_marked"):
+                if k == "clear_unmarked": store = [i for i in store if flows[i].marked]
+                elif k == "filter": flt = op[1]
+                else: marked_only = not marked_only
+                seen_vis, seen_key = {}, {}
+                for i in store: evaluate(i)
+            elif k == "order" and op[1] in gens:
+                order = op[1]
+                for i in store:
+                    if seen_vis[i]: seen_key[i] = keyof(i)
+            elif k == "reversed": rev = bool(op[1])
+            out.append({"store": list(store), "rev": rev,
+                        "live_vis": {i: vis(i) for i in store}, "seen_vis": {i: seen_vis[i] for i in store},
+                        "live_key": {i: keyof(i) for i in store}, "seen_key": dict(seen_key)})
+        self._ref = (key, out)
+        return out
+
     # ---------------------------------------------------------------- the property as a predicate
-    def oracle(self, case, obs):
+    def oracle(self, case, obs, ref=None):
         if case.get("kind") == "keys": return []
         fails = []
-        # flows that changed since the view last evaluated them (an unreported `mutate`); the view cannot know their
-        # current key / filter verdict, so for them only "listed => stored, once" is demanded.  A flow is current again
-        # after its own add/update (or settings write), and all flows are after a re-filter / clear.
-        dirty, prev_store = set(), []
-        for n, st in enumerate(obs["steps"]):
+        ref = ref if ref is not None else self.reference(case)
+        for n, (st, rf) in enumerate(zip(obs["steps"], ref)):
             where = f"op {n} ({st['op']})"
             if st["err"].startswith("unexpected"):
                 fails.append(f"{where}: raised {st['err']}")
-            k = st["op"]
-            if k == "mutate": dirty |= set(st["touched"])
-            elif k == "add": dirty -= {x for x in st["touched"] if x not in prev_store}
-            elif k == "update": dirty -= set(st["touched"])
-            elif k == "setval" and not st["err"]: dirty -= set(st["touched"])
-            elif k in ("clear", "clear_unmarked", "filter", "toggle_marked"): dirty = set()
-            prev_store = st["store"]
-            view, raw = st["view"], st["raw"]
+            view, raw, store = st["view"], st["raw"], rf["store"]
+            # NOT DEMANDED (the only leniency of this oracle): a stored flow that changed behind the view's back (`mutate`)
+            # so that its current visibility differs from the one the view last evaluated is excused from the membership
+            # clause; one whose current key differs from the one the view last evaluated is excused from the order clause.
+            # A flow whose current value equals the last evaluated one is NOT excused, mutated or not.
+            ex_member = {i for i in store if rf["live_vis"][i] != rf["seen_vis"][i]}
+            ex_order = {i for i in store if i in rf["seen_key"] and rf["live_key"][i] != rf["seen_key"][i]}
+            # the store holds exactly what was added and not removed / cleared (input-derived)
+            if st["store"] != store:
+                fails.append(f"{where}: store {st['store']} but the operations leave {store}")
             # "the view lists exactly the stored flows that match the current filter (and are marked, while
             #  marked-only is on), each once" — after a removal / clear the flow must be gone whatever its key did
-            if any(x not in st["store"] for x in view):
-                fails.append(f"{where}: view {view} lists flows that are not stored {st['store']}")
+            elif any(x not in store for x in view):
+                fails.append(f"{where}: view {view} lists flows that are not stored {store}")
             elif len(set(view)) != len(view):
                 fails.append(f"{where}: a flow is listed twice {view}")
-            elif any((x in view) != (x in st["want"]) for x in st["store"] if x not in dirty):
-                fails.append(f"{where}: view {view} != matching stored flows {st['want']} (unreported changes: {sorted(dirty)})")
-            # "sorted by the selected order and reversed when requested" (among flows whose keys the view can know)
+            elif any((x in view) != rf["live_vis"][x] for x in store if x not in ex_member):
+                fails.append(f"{where}: view {view} != matching stored flows {[x for x in store if rf['live_vis'][x]]} "
+                             f"(visibility changed unreported: {sorted(ex_member)})")
+            # "sorted by the selected order and reversed when requested" (among flows whose current key the view has seen)
             else:
-                ks = [kv for x, kv in zip(raw, st["kv"]) if x not in dirty]
-                if any(a > b for a, b in zip(ks, ks[1:])):
-                    fails.append(f"{where}: view not sorted by the selected order: keys {st['keys']} (unreported changes: {sorted(dirty)})")
-                elif view != (raw[::-1] if st["rev"] else raw):
-                    fails.append(f"{where}: direction wrong: {view} vs underlying {raw} reversed={st['rev']}")
+                ks = [rf["live_key"][x] for x in view if x not in ex_order]
+                bad = any(a < b for a, b in zip(ks, ks[1:])) if rf["rev"] else any(a > b for a, b in zip(ks, ks[1:]))
+                if bad:
+                    fails.append(f"{where}: view {view} not sorted by the selected order (reversed={rf['rev']}): keys "
+                                 f"{[rf['live_key'][x] for x in view]} (key changed unreported: {sorted(ex_order)})")
+                elif view != (raw[::-1] if st["rev"] else raw) or st["rev"] != rf["rev"]:
+                    fails.append(f"{where}: direction wrong: {view} vs underlying {raw} reversed={st['rev']}, requested {rf['rev']}")
             # "The focus is always a flow in the view (none only when the view is empty)"
             if st["focus"] is None:
                 if view: fails.append(f"{where}: no focus although the view is {view}")
             elif st["focus"] not in view:
                 fails.append(f"{where}: focus {st['focus']} is not in the view {view}")
             # "per-flow settings exist only for stored flows"
-            if any(s not in st["store"] for s in st["settings"]):
-                fails.append(f"{where}: settings {st['settings']} for flows outside the store {st['store']}")
+            if any(s not in store for s in st["settings"]):
+                fails.append(f"{where}: settings {st['settings']} for flows outside the store {store}")
             # "add/remove/update notifications match the changes made"
             b, a, sg = set(st["before"]), set(raw), st["sigs"]
             adds = [int(x[1:]) for x in sg if x[0] == "a"]
